@@ -144,10 +144,11 @@ fn priority_of(i: u64) -> Priority {
     }
 }
 
-fn ts_of_ns(ns: i128) -> DateTime<FixedOffset> {
+/// the instant `ns`, expressed with UTC offset `off` seconds (the report header stores local time + offset)
+fn ts_of_ns(ns: i128, off: i32) -> DateTime<FixedOffset> {
     let secs = ns.div_euclid(1_000_000_000) as i64;
     let sub = ns.rem_euclid(1_000_000_000) as u32;
-    Utc.timestamp_opt(secs, sub).unwrap().with_timezone(&FixedOffset::east_opt(3600).unwrap())
+    Utc.timestamp_opt(secs, sub).unwrap().with_timezone(&FixedOffset::east_opt(off).unwrap())
 }
 
 fn ft_of_ns(ns: i128) -> filetime::FileTime {
@@ -376,7 +377,7 @@ fn make_config(case: &Value, dir1: &StdPath) -> (DedupeConfig, [Vec<Pattern>; 4]
         isolated_roots: strs(case, "iso").iter().map(|r| FPath::from(dir1.join(r))).collect(),
         match_links: case["mlinks"].as_bool().unwrap(),
         no_check_size: case["nosize"].as_bool().unwrap(),
-        modified_before: if case["mbefore"].is_null() { None } else { Some(ts_of_ns(off_ns(&case["mbefore"]))) },
+        modified_before: if case["mbefore"].is_null() { None } else { Some(ts_of_ns(off_ns(&case["mbefore"]), case["tz_off"].as_i64().unwrap_or(3600) as i32)) },
         ..DedupeConfig::default()
     };
     (cfg, all)
@@ -745,7 +746,12 @@ fn run_hist(case: &Value, scratch: &StdPath) -> String {
         let f = std::fs::File::open(dir.join("report")).map_err(|e| e.to_string())?;
         let mut reader = fclones::report::open_report(f).map_err(|e| e.to_string())?;
         let header = reader.read_header().map_err(|e| e.to_string())?;
-        let ts = header.timestamp;
+        let written_offset = header.timestamp.offset().local_minus_utc();
+        // the same instant as read by a dedupe run from a report written in another zone
+        let ts = match case["tz_off"].as_i64() {
+            Some(off) => header.timestamp.with_timezone(&FixedOffset::east_opt(off as i32).unwrap()),
+            None => header.timestamp,
+        };
         let ts_ns = ts.timestamp() as i128 * 1_000_000_000 + ts.timestamp_subsec_nanos() as i128;
         // ---- dedupe configuration as run_dedupe builds it
         let opname = s(case, "op");
@@ -834,6 +840,7 @@ fn run_hist(case: &Value, scratch: &StdPath) -> String {
             "ts_ns": ts_ns.to_string(), "t_read": t_read.to_string(), "t_written": t_written.to_string(),
             "last_phase": order.iter().map(|j| last_phase[*j]).collect::<Vec<_>>(),
             "order": order, "processed": result.processed_count,
+            "header_utc_offset": written_offset, "cutoff_utc_offset": ts.offset().local_minus_utc(),
             "warnings": log.msgs.lock().unwrap().iter().filter(|m| m.starts_with("warn")).count(),
         });
         Ok(format!("{id}\t{line}\tF {} ## S {sres}\t{}\t{}\t{}", nodes.join(" "), pre.join(" "), post.join(" "), info))
